@@ -26,6 +26,7 @@ package parser
 
 //@ func (p *Parser) SeekPos(filePos int64) (err error)   props: C17 C18
 //@   requires inv(p) && filePos >= 0
+//@   ensures reliable(p.r) ==> faults(p.r) == old(faults(p.r))   // in-memory readers never fault
 //@   ensures err == nil ==> inv(p) && vpos(p) == filePos
 //@   ensures (err != nil) == (faults(p.r) > old(faults(p.r)))
 //@   ensures faults(p.r) >= old(faults(p.r))
@@ -35,6 +36,7 @@ package parser
 
 //@ func (p *Parser) Discard(n int) (err error)   props: C17 C18
 //@   requires inv(p) && vpos(p) + n <= 9223372036854775807
+//@   ensures reliable(p.r) ==> faults(p.r) == old(faults(p.r))   // in-memory readers never fault
 //@   panics_if n < 0
 //@   ensures err == nil ==> inv(p) && vpos(p) == old(vpos(p)) + n
 //@   ensures (err != nil) == (faults(p.r) > old(faults(p.r))) && faults(p.r) >= old(faults(p.r))
@@ -43,6 +45,7 @@ package parser
 
 //@ func (p *Parser) ReadBytes(n int) (res []byte, err error)   props: C17 C18 C02
 //@   requires inv(p)
+//@   ensures reliable(p.r) ==> faults(p.r) == old(faults(p.r))   // in-memory readers never fault
 //@   panics_if n > 1024
 //@   let m = max(n, 0); c0 = old(vpos(p)); nofault = faults(p.r) == old(faults(p.r))
 //@   ensures err == nil ==> inv(p) && len(res) == m && vpos(p) == c0 + m
@@ -68,6 +71,7 @@ package parser
 
 //@ func (p *Parser) ReadUint8() (v uint8, err error)   props: C17 C18
 //@   requires inv(p)
+//@   ensures reliable(p.r) ==> faults(p.r) == old(faults(p.r))   // in-memory readers never fault
 //@   let c0 = old(vpos(p)); nofault = faults(p.r) == old(faults(p.r))
 //@   ensures err == nil ==> inv(p) && vpos(p) == c0 + 1 && v == file(p.r)[c0]
 //@   ensures nofault ==> ((err != nil) == (c0 + 1 > fsize(p.r)))
@@ -78,6 +82,7 @@ package parser
 
 //@ func (p *Parser) ReadUint16() (v uint16, err error)   props: C17 C18
 //@   requires inv(p)
+//@   ensures reliable(p.r) ==> faults(p.r) == old(faults(p.r))   // in-memory readers never fault
 //@   let c0 = old(vpos(p)); nofault = faults(p.r) == old(faults(p.r))
 //@   ensures err == nil ==> inv(p) && vpos(p) == c0 + 2 && v == be16(file(p.r), c0)
 //@   ensures nofault ==> ((err != nil) == (c0 + 2 > fsize(p.r)))
@@ -88,6 +93,7 @@ package parser
 
 //@ func (p *Parser) ReadInt16() (v int16, err error)   props: C17 C18
 //@   requires inv(p)
+//@   ensures reliable(p.r) ==> faults(p.r) == old(faults(p.r))   // in-memory readers never fault
 //@   let c0 = old(vpos(p)); nofault = faults(p.r) == old(faults(p.r))
 //@   ensures err == nil ==> inv(p) && vpos(p) == c0 + 2 && v == int16(be16(file(p.r), c0))
 //@   ensures nofault ==> ((err != nil) == (c0 + 2 > fsize(p.r)))
@@ -98,6 +104,7 @@ package parser
 
 //@ func (p *Parser) ReadUint32() (v uint32, err error)   props: C17 C18
 //@   requires inv(p)
+//@   ensures reliable(p.r) ==> faults(p.r) == old(faults(p.r))   // in-memory readers never fault
 //@   let c0 = old(vpos(p)); nofault = faults(p.r) == old(faults(p.r))
 //@   ensures err == nil ==> inv(p) && vpos(p) == c0 + 4 && v == be32(file(p.r), c0)
 //@   ensures nofault ==> ((err != nil) == (c0 + 4 > fsize(p.r)))
@@ -108,6 +115,7 @@ package parser
 
 //@ func (p *Parser) ReadUint16Slice() (res []uint16, err error)   props: C17 C18
 //@   requires inv(p)
+//@   ensures reliable(p.r) ==> faults(p.r) == old(faults(p.r))   // in-memory readers never fault
 //@   let c0 = old(vpos(p)); nofault = faults(p.r) == old(faults(p.r)); cnt = be16(file(p.r), c0)
 //@   ensures err == nil ==> inv(p) && len(res) == cnt && vpos(p) == c0 + 2 + 2*cnt
 //@   ensures err == nil ==> forall j int :: 0 <= j && j < len(res) ==> res[j] == be16(file(p.r), c0 + 2 + 2*j)
@@ -126,6 +134,7 @@ package parser
 
 //@ func (p *Parser) Read(buf []byte) (total int, err error)   props: C17 C18
 //@   requires inv(p) && ref(buf) != ref(p.buf)
+//@   ensures reliable(p.r) ==> faults(p.r) == old(faults(p.r))   // in-memory readers never fault
 //@   let c0 = old(vpos(p)); nofault = faults(p.r) == old(faults(p.r)); L = len(buf)
 //@   ensures 0 <= total && total <= L
 //@   ensures err == nil ==> total == L && inv(p) && vpos(p) == c0 + L
